@@ -196,14 +196,14 @@ func (g *groundTruth) accepting(key string) spans {
 		if m.key != key && m.key != "" {
 			continue
 		}
-		if cur == mOK || cur == mHang {
+		if cur == mOK || cur == mHang || cur == mSlow {
 			if m.at > since {
 				out = append(out, span{since, m.at})
 			}
 		}
 		cur, since = m.mode, m.at
 	}
-	if cur == mOK || cur == mHang {
+	if cur == mOK || cur == mHang || cur == mSlow {
 		out = append(out, span{since, g.horizon})
 	}
 	return out.union(nil)
